@@ -494,6 +494,10 @@ func (tb *Table) Eq(x, y *T) *T {
 			}
 			return tb.Not(x)
 		}
+		// p == !p is false (C06: "same float or both NaN" stated without forks)
+		if (x.Op == ONot && x.X == y) || (y.Op == ONot && y.X == x) {
+			return tb.ff
+		}
 	}
 	if x.Op == OConst {
 		x, y = y, x
